@@ -45,7 +45,7 @@ static void digest_sequences(const std::string &a,int depth){ std::unique_ptr<me
 			else if(op==8){ std::string got=readout(*d); if(got!=ref_digest(a,m)){ bad("digest-seq:"+a,"digest differs from the standard after an operation sequence (message length "+std::to_string(m.size())+", readout #"+std::to_string(readouts+1)+")",cs); return; } m.clear(); readouts++; vf::outcome(a+":"+std::to_string(m.size())+":"+vf::hex(got.substr(0,4))); }
 			else { std::unique_ptr<message_digest> c(d->clone()); std::string got=readout(*c); if(got!=ref_digest(a,"")) { bad("digest-clone:"+a,"clone() is not a fresh object of the same algorithm",cs); return; } if(std::string(c->name())!=d->name()) bad("digest-clone-name:"+a,"clone() has another name",cs); }
 		}
-		std::string got=readout(*d); if(got!=ref_digest(a,m)) bad("digest-seq:"+a,"digest differs from the standard after an operation sequence (final, message length "+std::to_string(m.size())+")",cs); vf::eval(); if(readouts) vf::guard("digest_reused_after_readout"); };
+		std::string got=readout(*d); if(got!=ref_digest(a,m)) bad("digest-seq:"+a,"digest differs from the standard after an operation sequence (final, message length "+std::to_string(m.size())+")",cs); vf::eval(); if(readouts) vf::guard("digest_reused_after_readout"); { static uint64_t sc=0; if(vf::sample_tick(sc,3001)) vf::sample("{\"sequence\":"+vf::jstr(cs)+",\"final_digest_prefix\":"+vf::jstr(vf::hex(got.substr(0,6)))+"}"); } };
 	std::function<void(int)> rec=[&](int d){ run(); if(d==depth) return; for(int op=0;op<NOPS;op++){ seq.push_back(op); rec(d+1); seq.pop_back(); } }; rec(0);
 }
 static void digest_chunkings(const std::string &a){ std::unique_ptr<message_digest> d=message_digest::create_by_name(a); size_t B=d->block_size(); size_t maxlen=2*B+9;
